@@ -266,7 +266,7 @@ pub fn case_of_reqs(reqs: &[String]) -> Result<Case, String> {
           "src" => Op::Src, "buffer" => Op::Buffer, "size" => Op::Size, "rope" => Op::Rope, "feed" => Op::Hash, "clonecheck" => Op::CloneCheck,
           "eq" => { let o = t.tok()?; Op::Eq(o.trim_start_matches('A').parse().map_err(|_| "bad eq".to_string())?) }
           "writer" => Op::Writer(t.num()? as usize),
-          "stream" => { let c = t.boolean()?; let f = t.boolean()?; Op::Stream(c, f) }
+          "stream" | "chkstream" => { let c = t.boolean()?; let f = t.boolean()?; Op::Stream(c, f) }
           "map" => Op::Map(t.boolean()?),
           v => return Err(format!("unknown verb {v}")),
         };
